@@ -62,14 +62,31 @@ def _the_class():
     return _CLASS
 
 
-def build_pomdp(case, explicit_lists=False, labels=None, int01=False, dist_types=False):
+def fingerprint(p):
+    """everything the caller handed to the POMDP, as a comparable value (to detect mutation of the caller's objects)"""
+    sp = p._spec
+
+    def d(x):
+        return (type(x).__name__, [(repr(k), repr(v)) for k, v in x.items()])
+    return {"trans": [(repr(k), d(v)) for k, v in sp["trans"].items()],
+            "obs": [(repr(k), d(v)) for k, v in sp["obs"].items()],
+            "rew": [(repr(k), repr(v)) for k, v in sp["rew"].items()],
+            "actions": [(repr(k), type(v).__name__, repr(list(v))) for k, v in sp["actions"].items()],
+            "absorbing": repr(sp["absorbing"]), "init": d(sp["init"]),
+            "lists": repr((getattr(p, "_state_list", None), getattr(p, "_action_list", None)))}
+
+
+def build_pomdp(case, explicit_lists=False, labels=None, int01=False, dist_types=False, share_objects=False):
     """labels=None: states, actions and observations are the integer ids of the case; otherwise
     {"S": [...], "A": [...], "O": [...]} tagged labels per id (see dec_label).  The label lists are
     left on the object as _gen_S / _gen_A / _gen_O (id -> label).
     explicit_lists=True pins _state_list/_action_list IN ID ORDER (not sorted label order); otherwise
     msdm derives them by reachability and sorts them.
     int01=True: probabilities / rewards that are whole numbers are passed as Python ints.
-    dist_types=True: certain rows become DeterministicDistribution, uniform rows UniformDistribution."""
+    dist_types=True: certain rows become DeterministicDistribution, uniform rows UniformDistribution.
+    share_objects=True: equal kernel rows are ONE DictDistribution object returned for several (s, a) / (a, ns),
+    actions(s) returns a mutable list, the same list object for all states with the same action set, and
+    explicit state / action lists are mutable lists (see fingerprint)."""
     from msdm.core.distributions import DictDistribution
     from msdm.core.distributions.dictdistribution import DeterministicDistribution, UniformDistribution
     n, nA, nO = case["n"], case["nA"], case["nO"]
@@ -92,7 +109,12 @@ def build_pomdp(case, explicit_lists=False, labels=None, int01=False, dist_types
                 return DeterministicDistribution(L[pos[0][0]])
             if len({p for _, p in pos}) == 1:
                 return UniformDistribution([L[e] for e, _ in pos])
-        return DictDistribution({L[e]: num(p) for e, p in row})
+        dd = DictDistribution({L[e]: num(p) for e, p in row})
+        if share_objects:
+            key = repr(sorted((repr(k), repr(v)) for k, v in dd.items())) + repr(list(dd))
+            return pool.setdefault(key, dd)
+        return dd
+    pool = {}
 
     trans = {}
     for k, row in case["trans"].items():
@@ -115,9 +137,12 @@ def build_pomdp(case, explicit_lists=False, labels=None, int01=False, dist_types
     for g in case.get("state_ghost", []):      # a listed-but-impossible successor is still a legitimate argument
         spec["actions"][S[g]] = tuple(A)
         spec["absorbing"][S[g]] = False
+    if share_objects:
+        lists = {}
+        spec["actions"] = {k: lists.setdefault(v, list(v)) for k, v in spec["actions"].items()}
     p = _the_class()(spec)
     p._gen_S, p._gen_A, p._gen_O = S, A, O
     if explicit_lists:
-        p._state_list = tuple(S[:n])
-        p._action_list = tuple(A)
+        p._state_list = list(S[:n]) if share_objects else tuple(S[:n])
+        p._action_list = list(A) if share_objects else tuple(A)
     return p
